@@ -21,13 +21,16 @@ Theorem C18_detect_spec : forall (V : Type) (eqb : V -> V -> bool) (succ : V -> 
   (before : V -> V -> bool) (vs ord : list V),
   (forall a b, reflect (a = b) (eqb a b)) ->
   (forall v w, In v vs -> In w (succ v) -> In w vs) ->
+  (forall a b, before a b = true -> before b a = false) ->
+  (forall y s n, before y s = false -> before n s = true -> before y n = false) ->
   (forall v, In v ord <-> In v vs) ->
   match detect eqb succ before (S (length vs)) ord with
   | Done None => forall u, In u vs -> ~ path succ u u
-  | Done (Some (start, c)) => is_cycle succ vs c /\ hd start c = start
+  | Done (Some (start, c)) =>
+      is_cycle succ vs c /\ hd start c = start /\ forall y, In y c -> before y start = false
   | _ => False
   end.
-Proof. exact (fun V eqb succ before vs ord H1 H2 H3 => detect_spec eqb succ before H1 vs H2 ord H3). Qed.
+Proof. exact (fun V eqb succ before vs ord H1 H2 H3 H4 H5 => detect_spec eqb succ before H1 vs H2 H3 H4 ord H5). Qed.
 Print Assumptions C18_detect_spec.
 
 (* ---- unresolved references: a (job, reference) pair is reported iff the
@@ -58,6 +61,13 @@ Theorem C18_cycle_sound : forall jobs ord ds p c,
   real_cycle (table jobs) c /\ p = pos_of (table jobs) (hd EmptyString c).
 Proof. exact cycle_sound_jobs. Qed.
 Print Assumptions C18_cycle_sound.
+
+(* the printed cycle starts at the smallest position among its jobs *)
+Theorem C18_cycle_start_min : forall jobs ord ds p c,
+  Permutation ord (keys (table jobs)) -> run jobs ord = Done ds -> In (DCycle p c) ds ->
+  forall y, In y c -> is_before (pos_of (table jobs) y) p = false.
+Proof. exact cycle_start_min_jobs. Qed.
+Print Assumptions C18_cycle_start_min.
 
 (* ---- completeness: all references resolve and the graph has a cycle =>
    a cyclic-dependency diagnostic is produced *)
